@@ -326,7 +326,7 @@ fn run(run: &mut Run) {
     run.assume("hash seeds cannot be chosen: detection is probabilistic per input (>= 1 - 2^-5 for a two-key map within one process), the verdict over hundreds of inputs effectively deterministic; on a deterministic tree the check cannot fire");
     run.min_nontrivial = 100;
     for (name, f) in CONVS {
-        let n = run.tier.pick(5_000, 50_000);
+        let n = run.tier.pick(8_000, 100_000);
         let c = repeat_case(name, *f);
         run.explore(name, n, 900, &c);
     }
